@@ -15,7 +15,8 @@ def recheck(directory):
     for tier in ('quick', 'thorough'):
         if tier == 'thorough' and caught_by:
             break
-        out = subprocess.run([os.path.join(HERE, 'tools', 'seedtest.sh'), patch, demo if os.path.exists(demo) else '-', tier, pid],
+        ids = [pid] + (meta.get('extra_checks', []) if tier == 'quick' else [])    # checks of other properties the change also breaks
+        out = subprocess.run([os.path.join(HERE, 'tools', 'seedtest.sh'), patch, demo if os.path.exists(demo) else '-', tier] + ids,
                              capture_output=True, text=True).stdout
         log += out
         for match in re.finditer(r'^--- (C\d+) exit=(\d+)\s+(\d+) violation lines', out, re.M):
